@@ -11,7 +11,9 @@ PY = "/venv/bin/python"
 
 def sh(cmd, cwd=None, env=None, timeout=3000):
     e = dict(os.environ); e.update(env or {})
-    p = subprocess.run(cmd, cwd=cwd, env=e, shell=isinstance(cmd, str), capture_output=True, text=True, timeout=timeout)
+    import signal   # a job started with `&` from a non-interactive shell ignores SIGINT, which the suite's test_timing needs
+    p = subprocess.run(cmd, cwd=cwd, env=e, shell=isinstance(cmd, str), capture_output=True, text=True, timeout=timeout,
+                       preexec_fn=lambda: signal.signal(signal.SIGINT, signal.SIG_DFL))
     return p.returncode, p.stdout + p.stderr
 
 def main():
